@@ -96,7 +96,8 @@ ENSURES(stored_cardinality_is_the_member_count, !(TOPCALL && M2I_MISS) || (g_uhs
 ENSURES(result_is_the_reduced_node, !(TOPCALL && M2I_MISS) || (g_crn == __CPROVER_old(g_crn) + 1 && *cp == g_new_node && g_recycles == __CPROVER_old(g_recycles) + 1))
 /* what a later hit will return: the result node, and - where the entry carries a cardinality at all (an implementation may instead read it back
  * from the node's header, which stored_cardinality_is_the_member_count pins down) - the member count */
-ENSURES(cache_entry_is_the_result_of_this_call, !(TOPCALL && M2I_MISS && g_alevel == L) ||
+/* (whether to cache at all is a matter of speed, not of C15: at most one entry, and if there is one it is this call's result) */
+ENSURES(cache_entry_is_the_result_of_this_call, !(TOPCALL && M2I_MISS && g_alevel == L) || g_adds == __CPROVER_old(g_adds) ||
         (g_adds == __CPROVER_old(g_adds) + 1 && g_added_key == A && g_res_node_set && g_added_node == *cp && (!g_res_card_set || g_added_card == *cv)))
 ENSURES(skipped_levels_are_not_cached, !(TOPCALL && M2I_MISS && g_alevel != L) || g_adds == __CPROVER_old(g_adds))
 ;
